@@ -189,18 +189,18 @@ def _fri_params():
           "getters agree with their definitions", est=5,
           assumptions=["kani::assume(sum of arities <= degree_bits) (what reduction_arity_bits guarantees)"], role="derived-lengths"),
     ]
-    for nm, d, opt, unwind, est in [("d0_none", 0, "None", 4, 2), ("d1_none", 1, "None", 5, 3), ("d2_none", 2, "None", 6, 5),
-                                    ("d3_none", 3, "None", 7, 10), ("d4_none", 4, "None", 8, 20), ("d5_none", 5, "None", 9, 40),
-                                    ("d3_max1", 3, "Some(1)", 7, 5), ("d4_max2", 4, "Some(2)", 8, 15),
-                                    ("d5_max3", 5, "Some(3)", 9, 30), ("d6_max3", 6, "Some(3)", 10, 60),
-                                    ("d6_none", 6, "None", 10, 90), ("d8_none", 8, "None", 12, 400)]:
+    for d, r, opt, unwind, est in [(0, 3, None, 4, 15), (1, 3, None, 5, 20), (2, 1, None, 6, 25), (3, 3, None, 7, 30),
+                                   (4, 3, None, 8, 45), (5, 1, None, 9, 100), (3, 0, 1, 7, 25), (4, 3, 2, 8, 40),
+                                   (5, 3, 3, 9, 100), (6, 3, 3, 10, 200), (6, 3, None, 10, 300)]:
+        nm = "d%d_r%d_%s" % (d, r, "none" if opt is None else "max%d" % opt)
         hs.append(H("fri_params::arity_min_size_%s" % nm,
                     [R + "FriReductionStrategy::reduction_arity_bits", R + "min_size_arity_bits",
                      R + "min_size_arity_bits_helper", R + "relative_proof_size"],
-                    "MinSize(%s), degree_bits = %d, rate_bits <= 3, num_queries <= 128, any cap_height; unwind %d "
-                    "(recursion depth <= degree_bits + 1)" % (opt, d, unwind),
+                    "MinSize(%s), degree_bits = %d, rate_bits = %d (concrete: they fix the recursion shape), num_queries <= 128, "
+                    "any cap_height; unwind %d (recursion depth <= degree_bits + 1)"
+                    % ("None" if opt is None else "Some(%d)" % opt, d, r, unwind),
                     "no panic; entries in 1..=max; non-increasing; sum <= degree_bits",
-                    tier="quick" if est <= 40 else "thorough", est=est, role="min-size-schedule"))
+                    tier="quick" if est <= 45 else "thorough", est=est, role="min-size-schedule"))
     return hs
 
 
